@@ -38,6 +38,11 @@ type caseC16 struct {
 	DstLay gen.Layout `json:"dst_layout"`
 	Calls  []call     `json:"calls"`
 	Order  [][]int    `json:"order"` // per goroutine: the order in which it runs the calls
+	// Fan > 1: every goroutine of Order exists Fan times (hundreds of goroutines, far more than Ps: calls get preempted half-way,
+	// pools and free lists sized for "a few" callers run dry). Rep > 1: every goroutine runs its list Rep times (long overlap of
+	// the same functions: contention paths such as TryLock fall-backs are taken).
+	Fan int `json:"fan,omitempty"`
+	Rep int `json:"rep,omitempty"`
 }
 
 type call struct {
@@ -232,27 +237,48 @@ func runC16(c caseC16, o *gen.Obs) error {
 	o.ClassIf(hashers >= 2 && len(c.Dst) > 510 && len(c.Dst2) > 510 && c.Dst != c.Dst2, "two-oversize-dsts")
 	o.ClassIf(len(c.Order) >= 2, "goroutines>=2")
 	o.NonTrivialIf(len(c.Order) >= 2 && len(c.Calls) > 0)
-	got := make([][][]byte, len(c.Order))
+	fan, rep := max(1, c.Fan), max(1, c.Rep)
+	orders := make([][]int, 0, len(c.Order)*fan)
+	for f := 0; f < fan; f++ {
+		orders = append(orders, c.Order...)
+	}
+	o.ClassIf(len(orders) > 128, "goroutines>128")
+	o.ClassIf(rep > 1, "repeated-lists")
+	got := make([][][]byte, len(orders))
+	unstable := make([]string, len(orders))
 	start := make(chan struct{})
 	var wg sync.WaitGroup
-	for g, order := range c.Order {
+	for g, order := range orders {
 		got[g] = make([][]byte, len(c.Calls))
 		wg.Add(1)
 		go func(g int, order []int) {
 			defer wg.Done()
 			<-start
-			for _, idx := range order {
-				got[g][idx%len(c.Calls)] = ev.run(c.Calls[idx%len(c.Calls)])
+			for r := 0; r < rep; r++ {
+				for _, idx := range order {
+					i := idx % len(c.Calls)
+					res := ev.run(c.Calls[i])
+					if r > 0 && !bytes.Equal(res, got[g][i]) && unstable[g] == "" {
+						unstable[g] = fmt.Sprintf("%s returned %x in repetition %d and %x before", c.Calls[i].Fn, res, r, got[g][i])
+						continue // keep the first result for the comparison with the run-alone result
+					}
+					got[g][i] = res
+				}
 			}
 		}(g, order)
 	}
 	close(start)
 	wg.Wait()
+	for g, u := range unstable {
+		if u != "" {
+			return gen.Fail("concurrent/result-differs", "goroutine %d: %s", g, u)
+		}
+	}
 	want := make([][]byte, len(c.Calls))
 	for i, cl := range c.Calls {
 		want[i] = ev.run(cl)
 	}
-	for g, order := range c.Order {
+	for g, order := range orders {
 		for _, idx := range order {
 			i := idx % len(c.Calls)
 			if !bytes.Equal(got[g][i], want[i]) {
@@ -302,6 +328,18 @@ var c16 = gen.Register(&gen.Check[caseC16]{
 		for i := 0; i < g; i++ {
 			c.Order = append(c.Order, rapid.Permutation(seq(n)).Draw(t, "order"))
 		}
+		switch gen.Pick(t, "load", 12) {
+		case 0: // a swarm: a few hundred goroutines, a short list each
+			if n > 3 {
+				c.Calls = c.Calls[:3]
+				for i := range c.Order {
+					c.Order[i] = []int{i % 3, (i + 1) % 3, (i + 2) % 3}
+				}
+			}
+			c.Fan = 20 + gen.Pick(t, "fan", 30)
+		case 1, 2: // long overlap
+			c.Rep = 5 + gen.Pick(t, "rep", 30)
+		}
 		return c
 	},
 	Fixed: func() []caseC16 {
@@ -329,9 +367,15 @@ var c16 = gen.Register(&gen.Check[caseC16]{
 			rev[i] = ord[len(ord)-1-i]
 		}
 		all.Order = [][]int{ord, rev, ord, rev}
+		// swarms: 400 goroutines x 8 multiplications / subtractions / hashes each (calls get preempted half-way, >128 in flight)
+		for _, fns := range [][]string{{"E.Multiply", "Base.Multiply"}, {"E.Subtract", "E.Add"}, {"HashToGroup", "HashToScalar"}, {"S.Pow", "S.Multiply"}} {
+			sw := caseC16{E: all.E, S: []string{gen.H(new(bigInt).Sub(ref.N, one)), "0123456789abcdef0123456789abcdef0123456789abcdef"}, Msg: "6d", Dst: all.Dst,
+				Calls: []call{{Fn: fns[0], I: 0, J: 1}, {Fn: fns[1], I: 1, J: 0}}, Order: [][]int{{0, 1}, {1, 0}, {0, 0}, {1, 1}}, Fan: 100, Rep: 4}
+			out = append(out, sw)
+		}
 		return append(out, all)
 	},
-	Required: []string{"two-oversize-dsts", "shared-spare-capacity-dst", "goroutines>=2", "call:HashToGroup", "call:HashToScalar", "call:E.Multiply"},
+	Required: []string{"two-oversize-dsts", "shared-spare-capacity-dst", "goroutines>=2", "goroutines>128", "repeated-lists", "call:HashToGroup", "call:HashToScalar", "call:E.Multiply"},
 	Run:      runC16,
 })
 
